@@ -9,7 +9,7 @@
    lo <= hi, at least one grid point, strictly increasing, all inside [lo, hi].
    [nthR i l] is [nth i l 0]. *)
 From Coq Require Import ZArith Reals List Bool.
-From Verif Require Import Base.Num Base.Vec C14.Model C14.Proofs C14.ProofsIndex C14.ProofsUniform C14.ProofsSlice.
+From Verif Require Import Base.Num Base.Vec C14.Model C14.Proofs C14.ProofsIndex C14.ProofsUniform C14.ProofsSlice C14.ProofsNd C14.ProofsAxes.
 Import ListNotations.
 Local Open Scope R_scope.
 
@@ -288,3 +288,43 @@ Theorem index_then_getitem_extracts_the_cell : forall (ax : axis R) (x : R),
   valid ax' /\ length (a_cs ax') = 1%nat /\ a_lo ax' <= x <= a_hi ax'.
 Proof. exact index_then_getitem. Qed.
 Print Assumptions index_then_getitem_extracts_the_cell.
+
+(* ------------------------------------------------------------------ *)
+(* T1. __getitem__, whole partition (any number of axes): one positive-step slice with a
+   non-empty hull per axis ([good_item]) -- after normalisation this is what every tuple of
+   in-range integers and slices is -- cuts every axis independently ([sub_item] = the
+   per-axis [sub_ax] above); the result is a valid partition.  [empty_slice_check] is the
+   code's own test "Slices with empty axes not allowed" (ValueError when it fires). *)
+Theorem getitem_acts_axiswise : forall (strict : bool) (p : list (axis R)) (items : list item),
+  Forall valid p -> Forall2 good_item p items ->
+  empty_slice_check items (shape_of p) = false ->
+  getitem strict p (ETuple items) = Ok (map2 sub_item p items) /\ Forall valid (map2 sub_item p items).
+Proof. exact getitem_nd_slices. Qed.
+Print Assumptions getitem_acts_axiswise.
+Theorem getitem_empty_axis_is_rejected : forall (strict : bool) (p : list (axis R)) (items : list item),
+  forallb is_slice items = true -> length items = length p ->
+  empty_slice_check items (shape_of p) = true -> getitem strict p (ETuple items) = ValueErr.
+Proof. exact getitem_nd_empty_axis. Qed.
+
+(* T1. insert / append / squeeze act on the list of axes (any carrier, any number of parts):
+   insert(index, q1..qN) splices all axes of q1..qN, in order, before axis index (negative
+   index counts from the end, anything outside [-ndim, ndim] is an IndexError);
+   append = concatenation; squeeze() removes exactly the one-point axes. *)
+Theorem insert_splices_the_axes : forall (T : Type) (NT : Num T) (p : list (axis T)) (index : Z)
+  (parts : list (list (axis T))),
+  (- zlen p <= index <= zlen p)%Z ->
+  insert p index parts = Ok (splice p (Z.to_nat (norm_pos (zlen p) index)) (concat parts)).
+Proof. exact (@insert_spec). Qed.
+Print Assumptions insert_splices_the_axes.
+Theorem insert_rejects_other_positions : forall (T : Type) (NT : Num T) (p : list (axis T)) (index : Z)
+  (parts : list (list (axis T))),
+  (index < - zlen p \/ zlen p < index)%Z -> insert p index parts = IndexErr.
+Proof. exact (@insert_out_of_range). Qed.
+Theorem append_concatenates_the_axes : forall (T : Type) (NT : Num T) (p : list (axis T))
+  (parts : list (list (axis T))), append p parts = Ok (p ++ concat parts).
+Proof. exact (@append_spec). Qed.
+Print Assumptions append_concatenates_the_axes.
+Theorem squeeze_removes_exactly_the_one_point_axes : forall (T : Type) (NT : Num T) (p : list (axis T)),
+  squeeze p AxAll = Ok (filter nondegen p).
+Proof. exact (@squeeze_all). Qed.
+Print Assumptions squeeze_removes_exactly_the_one_point_axes.
